@@ -190,22 +190,22 @@ def trimFront : List Pkt → List Pkt
   | p :: ps => if p.st == PSt.A || p.st == PSt.R then trimFront ps else p :: ps
 
 /-- the filter/map pass of `detect_lost_packets`: new list, lost `(idx, pkt)`, new loss_time -/
-def lossWalk (lostSentTime ld largestIndex la : Nat) : List Pkt → Nat → Option Nat →
+def lossWalk (lostSentTime ld largestIndex : Nat) : List Pkt → Nat → Option Nat →
     List Pkt × List (Nat × Pkt) × Option Nat
   | [], _, lt => ([], [], lt)
   | p :: ps, idx, lt =>
-    if p.st == PSt.I && p.pn ≤ la then
+    if p.st == PSt.I then
       if p.ts < lostSentTime || largestIndex ≥ idx + packetThreshold then
         let p' := { p with st := PSt.R }
-        let (ps', lost, lt') := lossWalk lostSentTime ld largestIndex la ps (idx + 1) lt
+        let (ps', lost, lt') := lossWalk lostSentTime ld largestIndex ps (idx + 1) lt
         (p' :: ps', (idx, p') :: lost, lt')
       else
         let time := p.ts + ld
         let lt1 := match lt with | some t => some (min t time) | none => some time
-        let (ps', lost, lt') := lossWalk lostSentTime ld largestIndex la ps (idx + 1) lt1
+        let (ps', lost, lt') := lossWalk lostSentTime ld largestIndex ps (idx + 1) lt1
         (p :: ps', lost, lt')
     else
-      let (ps', lost, lt') := lossWalk lostSentTime ld largestIndex la ps (idx + 1) lt
+      let (ps', lost, lt') := lossWalk lostSentTime ld largestIndex ps (idx + 1) lt
       (p :: ps', lost, lt')
 
 /-- the `try_fold` computing `persistent_lost` -/
@@ -218,22 +218,15 @@ def persistentFold : List Nat → Option Nat → Nat → Bool
     if lostCount + 1 ≥ persistentLossThreshold then true
     else persistentFold rest (some idx) lostCount
 
-/-- `PacketSpace::detect_lost_packets` once a largest acknowledged number `la` is known -/
-def detectLostLa (s : St) (e : Nat) (ld la : Nat) : Except String (St × List Nat) :=
+/-- `PacketSpace::detect_lost_packets`: returns the lost packet numbers -/
+def detectLost (s : St) (e : Nat) (ld : Nat) : Except String (St × List Nat) :=
   let sp := getSp s e
-  let w := lossWalk (s.now - ld - sp.mad) ld (bsearch sp.sent la) la sp.sent 0 none
+  let w := lossWalk (s.now - ld - sp.mad) ld (bsearch sp.sent (sp.la.getD 0)) sp.sent 0 none
   let s1 := setSp s e { sp with sent := w.1, lt := w.2.2 }
   if w.2.1.isEmpty then .ok (s1, []) else
   match onPacketsLost s1 (w.2.1.map (·.2)) (persistentFold (w.2.1.map (·.1)) none 0) with
   | .error err => .error err
   | .ok s2 => .ok (s2, w.2.1.map (·.2.pn))
-
-/-- `PacketSpace::detect_lost_packets`: returns the lost packet numbers; before the first acknowledgement
-nothing is lost (`loss_time` is still reset) -/
-def detectLost (s : St) (e : Nat) (ld : Nat) : Except String (St × List Nat) :=
-  match (getSp s e).la with
-  | none => .ok (setSp s e { getSp s e with lt := none }, [])
-  | some la => detectLostLa s e ld la
 
 /-! ## CongestionController -/
 
@@ -337,22 +330,24 @@ def discardEpoch (s : St) (e : Nat) (srtt rttvar : Nat) : Except String St :=
   setTimer (discardReset s e bytes) srtt rttvar
 
 /-- the `if in_flight { … }` block of `on_packet_sent` before `set_loss_detection_timer` -/
-def sentInflight (s : St) (e : Nat) (elic : Bool) (size : Nat) : St :=
+def sentInflight (s : St) (ld : Nat) (e : Nat) (elic : Bool) (size : Nat) : St :=
   let sp := getSp s e
   let sp := if elic then { sp with tl := some s.now, need := sp.need - 1 } else sp
+  let sp := match sp.lt with
+    | some _ => sp
+    | none => { sp with lt := some (s.now + ld) }
   setSp { s with bytes := s.bytes + size } e sp
 
 def pushPkt (s : St) (e : Nat) (pkt : Pkt) : St :=
   let sp := getSp s e
   setSp s e { sp with sent := sp.sent ++ [pkt] }
 
-/-- `ArcCC::on_pkt_sent` = `on_packet_sent` (the packet is recorded, then the timer set) + the client's
-`discard_epoch(Initial)` on every Handshake packet -/
+/-- `ArcCC::on_pkt_sent` = `on_packet_sent` + the client's `discard_epoch(Initial)` on every Handshake packet -/
 def onPktSent (s : St) (i : Inp) (e pn : Nat) (elic infl : Bool) (size : Nat) : Except String St :=
   let pkt : Pkt := { pn := pn, ts := s.now, elic := elic, cc := infl, size := size, st := PSt.I }
-  let s2 := pushPkt (if infl then sentInflight s e elic size else s) e pkt
-  (if infl then setTimer s2 i.srtt0 i.rttvar0 else .ok s2).bind fun s3 =>
-  if e == 1 && !s3.server then discardEpoch s3 0 i.srtt1 i.rttvar1 else .ok s3
+  (if infl then setTimer (sentInflight s i.ld0 e elic size) i.srtt0 i.rttvar0 else .ok s).bind fun s1 =>
+  let s2 := pushPkt s1 e pkt
+  if e == 1 && !s2.server then discardEpoch s2 0 i.srtt1 i.rttvar1 else .ok s2
 
 /-- an ACK frame as the harness sends it: largest, descending inclusive ranges `(lo, hi)`, optional ECN-CE count -/
 structure Ack where
@@ -414,7 +409,7 @@ def doTick (s : St) (i : Inp) : Except String (St × List (Nat × List Nat) × O
 
 /-- `ArcCC::on_pkt_rcvd` (ack-eliciting) → `on_datagram_rcvd` -/
 def onDatagramRcvd (s : St) (i : Inp) : Except String (St × List (Nat × List Nat)) :=
-  if s.aaLimit || s.timer.isNone then
+  if s.aaLimit then
     (setTimer s i.srtt0 i.rttvar0).bind fun s1 =>
     match s1.timer with
     | some t => if t < s1.now then onTimeout s1 i else .ok (s1, [])
